@@ -12,6 +12,8 @@ CONSTANTS MaxOps,       \* operations per client
           MaxFaults,
           Horizon,
           IdleClock,    \* BOOLEAN
+          ExtraActors,  \* function: further pre-spawned actors -> configuration (children, bystanders)
+          ExtraHandles, \* function: further initial handles -> [kind, a, owner]
           Names         \* sequence of fresh handle names
 
 NoCfg == [cap |-> Unb, strat |-> "restart", stream |-> FALSE, tmo |-> 0, failto |-> FALSE, owning |-> FALSE,
@@ -32,13 +34,18 @@ MCInit ==
                    THEN [UnbornActor EXCEPT !.pc = "starting", !.cap = cf.cap, !.strat = cf.strat, !.stream = cf.stream,
                                             !.tmo = cf.tmo, !.failto = cf.failto, !.sscr = cf.sscr, !.pscr = cf.pscr,
                                             !.fscr = cf.fscr, !.inst = 1, !.jh = IF cf.owning THEN "held" ELSE "none"]
+                   ELSE IF a \in DOMAIN ExtraActors
+                   THEN LET ef == ExtraActors[a] IN
+                        [UnbornActor EXCEPT !.pc = "starting", !.cap = ef.cap, !.strat = ef.strat, !.sscr = ef.sscr, !.pscr = ef.pscr,
+                                            !.inst = IF a = "a2" THEN 2 ELSE IF a = "a3" THEN 3 ELSE 4]       \* (instance ids need only be distinct)
                    ELSE UnbornActor]
   /\ hnd = [x \in {InitKinds[c].h : c \in Client} |->
               LET c == CHOOSE d \in Client : InitKinds[d].h = x IN
               [kind |-> InitKinds[c].kind, a |-> "a1", owner |-> c, polled |-> FALSE]]
+           @@ [x \in DOMAIN ExtraHandles |-> [kind |-> ExtraHandles[x].kind, a |-> ExtraHandles[x].a, owner |-> ExtraHandles[x].owner, polled |-> FALSE]]
   /\ cli = [c \in Client |-> IdleClient]
   /\ rsp = <<>> /\ tmr = <<>> /\ reg = InitReg /\ now = 0 /\ cur = None /\ yl = FALSE
-  /\ hst = [InitHist EXCEPT !.ninst = 1]
+  /\ hst = [InitHist EXCEPT !.ninst = 1 + Cardinality(DOMAIN ExtraActors)]
   /\ nf = 0
 
 OpsFor(c) ==
@@ -148,6 +155,19 @@ CfgsStrat2 == {Cfg(1, st, 0, FALSE, FALSE, ss, <<Y>>) : st \in {"restart", "recr
 ScriptsFail == {<<>>, <<Y>>, <<P>>}
 ScriptsSleep == {<<>>, <<Sl(1)>>, <<Sl(3)>>}
 ScriptsSleep2 == {<<>>, <<Sl(1)>>, <<Sl(2)>>, <<Sl(3)>>, <<Y, Sl(2)>>}
+NoExtra == <<>>
+\* parent a1 with children a2 (unit bucket, also held by c2) and a3 (bc bucket, child of a2: depth 3)
+TreeActors == ("a2" :> Cfg(Unb, "restart", 0, FALSE, FALSE, <<<<Eff("register_bc", 0, "k3")>>>>, <<Y>>))
+           @@ ("a3" :> Cfg(1, "restart", 0, FALSE, FALSE, <<<<>>>>, <<>>))
+TreeHandles == ("k2" :> [kind |-> "addr", a |-> "a2", owner |-> "a1"]) @@ ("k3" :> [kind |-> "addr", a |-> "a3", owner |-> "a2"])
+            @@ ("e2" :> [kind |-> "addr", a |-> "a2", owner |-> "c2"])
+TreeHandles1 == ("k2" :> [kind |-> "addr", a |-> "a2", owner |-> "a1"]) @@ ("k3" :> [kind |-> "addr", a |-> "a3", owner |-> "a2"])
+\* flat: a1 holds a2 (unit bucket); a3 is a bystander child-less actor held by c2
+FlatActors == ("a2" :> Cfg(1, "restart", 0, FALSE, FALSE, <<<<>>>>, <<Y>>))
+FlatHandles == ("k2" :> [kind |-> "addr", a |-> "a2", owner |-> "a1"]) @@ ("e2" :> [kind |-> "addr", a |-> "a2", owner |-> "c2"])
+CfgsParent == {Cfg(Unb, st, 0, FALSE, FALSE, <<ss>>, <<Y>>) : st \in {"restart"},
+                 ss \in {<<Eff("add_child", 0, "k2")>>, <<Eff("add_child", 0, "k2"), Er>>, <<Y, Eff("add_child", 0, "k2")>>}}
+ScriptsTree == {<<>>, <<Eff("broadcast_unit", 0, "")>>, <<P>>, <<Eff("ctx_stop", 0, "")>>}
 Tm(kind, p, name) == Eff(kind, p, name)
 CfgsTimers == {Cfg(cap, "restart", 0, FALSE, FALSE, <<ss>>, <<>>) : cap \in {Unb, 1},
                  ss \in {<<Tm("interval", 2, "t1")>>, <<Tm("interval_with", 2, "t1")>>, <<Tm("delayed_send", 2, "t1"), Tm("interval", 3, "t2")>>,
